@@ -15,16 +15,18 @@ k=sys.argv[1]; d=dict(a.split('=',1) for a in sys.argv[2:])
 json.dump(d,open(f'/tmp/seedchk/{k}.result.json','w'),indent=1)
 PY
 }
-git apply $SRC/$M.diff || { res ${KEYPFX:-}$ID-$M status=patch_does_not_apply; exit 1; }
+git apply $SRC/$M.diff 2>/dev/null || git apply -3 $SRC/$M.diff 2>/dev/null || { res ${KEYPFX:-}$ID-$M status=patch_does_not_apply; exit 1; }
+# (demonstrations that drive the interleaving through the step hook need the verif feature)
+FEAT=""; grep -q 'feature = "verif"' $SRC/${M}_demo.rs && FEAT="--features verif"
 b1=$(cargo build --offline -q 2>&1 | tail -1); b1rc=$?
 cargo build --offline -q --features verif >/dev/null 2>&1; b2rc=$?
 suite=$(cargo test --workspace --no-fail-fast --offline 2>&1 | grep -E "^test result" | tr '\n' ' ')
 cp $SRC/${M}_demo.rs tests/seeded_demo.rs
-demo_with=$(timeout 600 cargo test --offline --test seeded_demo 2>&1 | grep -E "^test result|error(\[|:)" | head -3 | tr '\n' ' ')
-git checkout -q -- src Cargo.toml 2>/dev/null; git checkout -q -- .
+demo_with=$(timeout 600 cargo test --offline $FEAT --test seeded_demo 2>&1 | grep -E "^test result|error(\[|:)" | head -3 | tr '\n' ' ')
+git reset -q --hard
 cp $SRC/${M}_demo.rs tests/seeded_demo.rs
-demo_without=$(timeout 900 cargo test --offline --test seeded_demo 2>&1 | grep -E "^test result|error(\[|:)" | head -3 | tr '\n' ' ')
+demo_without=$(timeout 900 cargo test --offline $FEAT --test seeded_demo 2>&1 | grep -E "^test result|error(\[|:)" | head -3 | tr '\n' ' ')
 rm -f tests/seeded_demo.rs
 cd /; git -C /repo worktree remove --force $W
-res ${KEYPFX:-}$ID-$M status=ran "build_default_rc=$b1rc" "build_verif_rc=$b2rc" "suite_with_patch=$suite" "demo_with_patch=$demo_with" "demo_without_patch=$demo_without"
+res ${KEYPFX:-}$ID-$M status=ran "build_default_rc=$b1rc" "build_verif_rc=$b2rc" "suite_with_patch=$suite" "demo_with_patch=$demo_with" "demo_without_patch=$demo_without" "demo_features=$FEAT"
 echo "${KEYPFX:-}$ID-$M :: suite[$suite] with[$demo_with] without[$demo_without]"
